@@ -1454,3 +1454,156 @@ SPECS["C20"]["level_text"] += (
     "every destination state (empty, consumed, pending placeholder, spilled chunk, cleared) - model = the WOp history clone(src), drop(dst); oracle: "
     "the destination then holds exactly the source's unconsumed bytes; an overwritten anchored slice names the source's bytes and keeps its chunk "
     "alive on its own (C05); `dbg` formats every live object with Debug.")
+# ---------------------------------------------------------------------------------------------
+# track gen3: structured-sweep generators (HCOBS piece boundaries, every chunk length / header value, single-defect sweeps of
+# the "all neighbours ordered" scans of rough_tlv) and iterator-protocol scripts on every public iterator
+_GEN3_ITER_LAWS = [
+    "Woodpile.IterScript.nth_is_repeated_next",
+    "Woodpile.IterScript.skip_is_repeated_next",
+    "Woodpile.IterScript.by_ref_take_is_nexts",
+    "Woodpile.IterScript.consuming_are_drain",
+    "Woodpile.IterScript.hint_is_remaining",
+    "Woodpile.IterScript.next_back_is_rev_next",
+    "Woodpile.IterScript.nth_back_is_rev_nth",
+    "Woodpile.IterScript.take_is_prefix",
+    "Woodpile.IterScript.stepBy_getElem?",
+    "Woodpile.IterScript.indexed_rebuilds",
+]
+_GEN3_ITER_TEXT = (
+    " Iterator protocol (track gen3): the ops {op} drive {what} through scripts of Iterator{de} calls (next, nth k, size_hint, "
+    "by_ref().take(k), skip k, take k{deops}, and as last step count / last / collect / fold / step_by(s).take(m)) on the iterator's "
+    "CONCRETE type for the first two adapter levels, so that the type's own overrides of provided methods are what runs, each script "
+    "under a 30 s watchdog; the direct oracle is a Vec cursor (std::vec::IntoIter over {ref}) subjected to the same script (size_hint "
+    "compared as a bound unless the iterator is ExactSize); the model side is the list cursor Woodpile.IterScript.run on the model's "
+    "iteration list, proved ({thm}) to answer every script as on the reference list, and proved (Proofs/IterScript) to be the "
+    "next()-only semantics of the provided methods: nth = k x next then next, skip, by_ref/take = the first k answers of next, count / "
+    "last / collect / fold = the drain by next, size_hint / len = the number of remaining items, next_back / nth_back = next / nth of "
+    "the reversal, step_by(s) yields items 0, s, 2s, ... Enumerated: every script of <= 2 (thorough 3) non-consuming steps over a "
+    "9-symbol alphabet (13 with the double-ended calls), alone and followed by each of 6 consuming steps; plus random scripts with "
+    "counts at 0, 1, n-1, n, n+1, usize::MAX.")
+SPECS["C12"]["lean_modules"] += ["Woodpile.Props.C12I", "Woodpile.Proofs.IterScript"]
+SPECS["C12"]["theorems"] += ["Woodpile.Props.C12I.iter_script_agrees_with_indexed",
+                             "Woodpile.Props.C12I.tags_script_agrees_with_indexed"] + _GEN3_ITER_LAWS
+SPECS["C12"]["level_text"] += _GEN3_ITER_TEXT.format(
+    op="`viewit iter|tags <hex> <script>` of family tlvview", what="MessageView::iter() (forward only) and tags().iter()", de="",
+    deops=" (tags: also next_back, nth_back k, rev, len)", ref="the pairs / tags obtained through get(i), i < len()",
+    thm="C12I.iter_script_agrees_with_indexed, tags_script_agrees_with_indexed") + (
+    " Single-defect sweep of MessageView::new (op `viewt`: same oracle as `view` on every accessor, terse observation = the new line, "
+    "count + FNV-1a digests of the tags and iter texts, get/get_value at 7 indices, find of the lookups): for N in 2..24, 63..66, "
+    "127..130 (thorough: 2..66, 127..130, 255..258, 300) pairs with strictly ascending offsets and tags, exactly ONE descent at EVERY "
+    "position of the offsets and of the tags (N = 256, 257 / 511..514: positions next to every multiple of 32 and the ends), equal "
+    "neighbours, a last offset one past the payload, one byte cut off.")
+SPECS["C15"]["lean_modules"] += ["Woodpile.Props.C15I", "Woodpile.Proofs.IterScript"]
+SPECS["C15"]["theorems"] += ["Woodpile.Props.C15I.run_iter_script_refines_list"] + _GEN3_ITER_LAWS
+SPECS["C15"]["level_text"] += _GEN3_ITER_TEXT.format(
+    op="`iterscript <script>` of family sdeque", what="deque.iter() (the Deref slice's iterator) of both real deques", de=" / DoubleEndedIterator / ExactSizeIterator",
+    deops=", next_back, nth_back k, rev, len", ref="the reference VecDeque's items", thm="C15I.run_iter_script_refines_list")
+SPECS["C16"]["lean_modules"] += ["Woodpile.Props.C16I", "Woodpile.Proofs.IterScript"]
+SPECS["C16"]["theorems"] += ["Woodpile.Props.C16I.iter_script_refines_ordered_map"] + _GEN3_ITER_LAWS
+SPECS["C16"]["level_text"] += _GEN3_ITER_TEXT.format(
+    op="`iterscript <script>` of family sorted", what="SortedDeque::iter() (forward only) of both real deques, incl. deques that are mostly tombstones", de="",
+    deops="", ref="the reference BTreeMap's values", thm="C16I.iter_script_refines_ordered_map")
+SPECS["C11"]["level_text"] += (
+    " Single-defect sweeps (track gen3, op `msgrun <ctor> <vt> <L> <defect>`: L pairs with empty values and strictly ascending tags, "
+    "built identically by harness and model driver, with ONE defect): for every L in 2..40, 63..67, 127..131, 255..258, 1023..1026 "
+    "(thorough: 2..131, 191..194, 255..258, 511..514, 1023..1026, 2047..2050, 4095..4098) and EVERY position i, new_from_sorted on the list "
+    "whose only descent is at i (must be rejected with witness i), plus per L the sorted list, equal neighbours, the sorting constructors "
+    "on one-descent lists, and one value reporting 2^31 / 2^31 - 1 bytes at every position (a few positions for L > 131); random (L, i) "
+    "up to L = 1100 (thorough 5000).")
+SPECS["C11"]["families"][0]["shards"] = {"quick": 4}
+SPECS["C12"]["families"][0]["shards"] = {"quick": 4}
+_GEN3_HCOBS_TEXT = (
+    " Structured sweeps (track gen3). Piece boundaries: 8 patterns of (last bytes of one piece | first bytes of the next: FE|FD, FE|FE FD, "
+    "FE|xx, xx|FD, FE FD FE|FD, FE FE|FD, FD|FE, FE|empty|FD) x size classes of the second piece {{1, 2, 64, 256, 4096, 64008, 65535, "
+    "65536, 65537}} (thorough: + 63, 65, 255, 257, 64007, 64009, 131072, 131073, 262144, 2^20, 2^20+1) x input-method pairs of b/c/a/r/S/T (2 per cell in "
+    "quick, 18 of 36 per cell in thorough, alternating halves) x position of the boundary in the current chunk (piece 1 = 0 / 3 / 249..251 filler bytes + the pattern), "
+    "where every piece BODY is constant filler without FE / FD (optionally one lone FD or one stuff sequence in the middle, FE / FD as "
+    "last byte, a third piece FD.. of 1 / 3 / 65537 bytes), written with the compact byte-string tokens `*TTxN` (N copies of TT) joined "
+    "by `+`, parsed identically by util::from_hex and Driver.parseHex. Every chunk length: zenc{zdec} on 252 + k zero bytes for every k in "
+    "0..=64008 (thorough; quick: every k within 1 of a multiple of 253 or of a power of two) = every value of the two-byte size header; "
+    "`zenc <m> <n> fe` is the same piece with FE as last byte of the full first chunk (same chunking, replayed by the model on the actual "
+    "bytes), so a header whose first byte comes out as FD is a stuff sequence on the wire (a C02 finding, not only a C07 one)"
+    "{zdec2}.")
+SPECS["C02"]["level_text"] += _GEN3_HCOBS_TEXT.format(zdec="", zdec2="")
+for _pid in ("C01", "C07"):
+    SPECS[_pid]["level_text"] += _GEN3_HCOBS_TEXT.format(zdec=" / zdec", zdec2=(
+        ", zdec with the call boundary before / between / after the two header bytes (`zdec <m> <n> <cut>`). Decoder header parsing value by "
+        "value: the first-chunk header 0..=255 (production limits and (3, 5)) with its body, unsplit and split after the header byte; the "
+        "two-byte header after an empty first chunk, header only, all 65536 values (thorough; quick: every value with a digit in "
+        "{0, 1, 2, 251..255} or on a diagonal), unsplit and split between the two bytes; limits (2, 507): every header with high digit "
+        "0..=3 with a filler body of that size"))
+# the hcobs families' enumerated cases grew (track gen3 sweeps): checks that run them with few random cases (one shard by
+# default) split them over 4 processes in the quick tier
+for _pid in ("C09", "C10"):
+    for _f in SPECS[_pid]["families"]:
+        if _f["name"] in ("hcobs_enc", "hcobs_dec"):
+            _f.setdefault("shards", {}).setdefault("quick", 4)
+
+# ---- track rdrworld: C05 along the codecs' ANCHORED calls (Props/C05R) - the guard half of WorldInv and ArenaInv that Props/C05H left open
+SPECS["C05"]["lean_modules"] += ["Woodpile.Props.C05R"]
+SPECS["C05"]["theorems"] += [
+    "Woodpile.Props.C05R.enc_anchored_arenaInv",
+    "Woodpile.Props.C05R.enc_anchored_exposed_live",
+    "Woodpile.Props.C05R.enc_anchored_run_exposed_live",
+    "Woodpile.Props.C05R.enc_anchored_below_bump",
+    "Woodpile.Props.C05R.dec_anchored_guard",
+    "Woodpile.Props.C05R.dec_anchored_exposed_live",
+    "Woodpile.Props.C05R.dec_anchored_below_bump",
+    "Woodpile.Props.C05R.anchored_no_overlap",
+    "Woodpile.Props.C05R.step_good",
+]
+SPECS["C05"]["level_text"] += (' Props/C05R (track rdrworld): the item C05H left open. Along EVERY encoder / decoder run with ALL input methods '
+    '(encPrefixA / encRunA / decRunA: encode_read / decode_read = read_n into the codec\'s own arena, push of sub-slices of the returned slice, ONE push_anchor; '
+    'any parameters, policy, tuning, reader scripts, drain schedule, verdict) the invariant HInv holds: the guard Guarded (anchors ++ zs) slices, where zs is the '
+    'zero-count anchor the running call will push for the AnchoredSlice it HOLDS (empty between calls), and ArenaInv of the world in which the held slice is '
+    'registered as one more detached slice (one cache per chunk, every slice - the held one included - below the bump pointer and inside the capacity). '
+    'Between calls this gives slice_guarded / exposed_live / below_bump for the codec\'s world (enc_anchored_*, dec_anchored_*; for the ENCODER also the head '
+    'condition, i.e. the full WorldInv of Props/C05: enc_anchored_arenaInv; for the decoder the head condition is false, see C05H, and is not needed for liveness). '
+    'anchored_no_overlap: every run is a chain of micro-steps (HStep: push_copy, push of a caller-buffer range, push of a range of the held slice, register_patch, '
+    'backfill, drains, lend, read_n, push_anchor) and at EVERY micro-step - also in the middle of an anchored call - step_good holds: each slice of the iovec in '
+    'chunk k is guarded by an anchor of the deque or by the held slice\'s anchor, ArenaInv before and after, and the conclusion of C05.no_overlap (one fresh range '
+    'at or above the end of every existing slice of its chunk, the held slice included).')
+# ---- track rdrworld: world-level StreamChunker / StreamReader (Model/StreamWorld.lean): placement of every slice handed out + live set
+SPECS["C05"]["families"] += [
+    dict(name="chunkerw", quick=240, thorough=3200, search=2000, shards=dict(quick=2, thorough=16)),
+    dict(name="readerw", quick=150, thorough=1600, search=1000, shards=dict(quick=6, thorough=16)),
+]
+SPECS["C05"]["lean_modules"] += ["Woodpile.Props.C05S"]
+SPECS["C05"]["theorems"] += [
+    "Woodpile.Props.C05S.pump_is_wrun",
+    "Woodpile.Props.C05S.pump_reachable",
+    "Woodpile.Props.C05S.chunk_slices_live",
+    "Woodpile.Props.C05S.reader_inv",
+    "Woodpile.Props.C05S.reader_inv_new",
+    "Woodpile.Props.C05S.reader_inv_calls",
+    "Woodpile.Props.C05S.record_slices_live",
+    "Woodpile.Props.C05S.record_guarded",
+    "Woodpile.Props.C05S.reader_chunks_live",
+    "Woodpile.Props.C05S.pump_world_agrees",
+    "Woodpile.Props.C05S.chunker_new_rel",
+    "Woodpile.Props.C05S.chunker_world_agrees",
+    "Woodpile.Props.C05S.data_chunk_live",
+    "Woodpile.Props.C05S.reader_next_agrees",
+    "Woodpile.Props.C05S.reader_world_agrees",
+]
+SPECS["C05"]["level_text"] += (' Props/C05S (track rdrworld): StreamChunker chunks and StreamReader records. Model/StreamWorld.lean models pump / '
+    'next_record_bytes on the structural World (the arena is a detached ByteArena or the decoder iovec\'s own; StreamChunker::buf and every Chunk::Data '
+    'handed out are detached AnchoredSlices; the record is the iovec self.iovec; clear per retry turn; the iovec and its arena are dropped on every path '
+    'that drops the Decoder while it owns them - `?`, return Ok(None), finish() failing). pump is a run of iovec-family operations (sTake, readNArena/readNIov '
+    'on the chained reader, sDrop, sSkip, sSplit - pump_is_wrun), so a chunker history stays Reachable and Props/C05 applies as stated; chunk_slices_live: every '
+    'non-empty detached slice after a pump (the chunk just handed out, chunks handed out earlier and still held, the buffered tail) lies in a live chunk held by '
+    'its OWN anchor, inside the capacity and below the bump pointer of any arena still allocating from that chunk. The reader\'s world is not a WOp history '
+    '(decode_anchored); next_record_bytes keeps HInv for every judge / block size / reader script and any number of calls (reader_inv, reader_inv_calls), hence '
+    'record_slices_live (every slice of the iovec after a call lies in a live chunk held by the iovec\'s OWN anchors, inside the capacity, below the bump '
+    'pointer), record_guarded, reader_chunks_live. WHAT bytes are returned stays with C06/C08 (byte-level model); that the world-level model returns the same '
+    'bytes AND places every slice where the real code does is checked by the new correspondence families chunkerw / readerw (same op vocabulary and lines as '
+    'chunker / reader plus at=/R slices= placements through the H1 registry and the live set after every call; held-chunk containment + content oracle): '
+    'the subject of these families. That the world-level model returns the same BYTES as the byte-level model of C06/C08 is PROVED: CHUNKER '
+    '(Proofs/StreamWorldRef) pump_world_agrees / chunker_world_agrees - every history of a new chunker and its caller (pumps with any block sizes on any '
+    'arena, interleaved with the caller dropping chunks; any stream / reader script; any world) returns pump by pump exactly the chunks of Stream.pumpSeq '
+    '(verdicts, offsets, bytes) and leaves the reader where it leaves it; data_chunk_live: the handle of a Data chunk names a non-empty detached slice '
+    'holding those bytes, live, below the bump pointer. READER (Proofs/StreamWorldRd) reader_next_agrees / reader_world_agrees - any number of '
+    'next_record_bytes calls of a new reader, each with its own judge and block size, return call by call exactly what Stream.next returns (Some with the same '
+    'range and the byte-level record = the FLATTENED IOVEC, None, the same I/O error) and leave the reader in the same position; proof: the iovec satisfies '
+    'the single-iovec invariant IovInv and every detached slice is held w.r.t. it (Geo), decode_anchored of a chunk appends exactly the decoder\'s emits '
+    '(decFeed_pushed) and leaves the chunker\'s buffered tail and its bytes alone (FrameOut), pump touches no detached slice but its own (pumpW_only).')
